@@ -179,7 +179,7 @@ fn main() {
     main_for(|tier| {
         let thorough = tier == "thorough";
         let mut cfgs = vec![];
-        for d in [0u64, 1, 5, 1000, u64::MAX] {
+        for d in [0u64, 1, 5, 1000, 1 << 32, (1 << 32) + 5, u64::MAX] {
             for t0 in [0u64, 100, 1_700_000_000] {
                 cfgs.push((d, t0));
             }
@@ -187,7 +187,7 @@ fn main() {
         let s = C09 { cfgs };
         let mut o = Opts::new(tier, if thorough { 12 } else { 6 });
         o.min_depth = 4;
-        o.rule = "minimum delay in {0,1,5,1000,u64::MAX} x deployment time in {0,100,1.7e9}; all sequences over {advance 1 / delay-1 / delay / delay+1 seconds, non-bypass rotation with an honest proof, non-bypass rotation to an already-installed set, non-bypass rotation with a proof for another candidate, bypass with operator / nobody / stranger authorising, bypass with a proof from the previous retained set with and without the operator} up to depth 6 (quick) / 9 (thorough); model: last successful rotation time (deployment counts)".into();
+        o.rule = "minimum delay in {0,1,5,1000,2^32,2^32+5,u64::MAX} x deployment time in {0,100,1.7e9}; all sequences over {advance 1 / delay-1 / delay / delay+1 seconds, non-bypass rotation with an honest proof, non-bypass rotation to an already-installed set, non-bypass rotation with a proof for another candidate, bypass with operator / nobody / stranger authorising, bypass with a proof from the previous retained set with and without the operator} up to depth 6 (quick) / 9 (thorough); model: last successful rotation time (deployment counts)".into();
         (s, o)
     });
 }
